@@ -81,6 +81,7 @@ func (s *Storage) AllocateKeys(identifier string, interval uint64, initial uint6
 	if err != nil {
 		lg.Error("Unable to commit sequence with identifier %s (interval: %d, initial: %d): %v",
 			identifier, interval, initial, err)
+		return nil, err
 	}
 	start = uint64(counter)
 
